@@ -163,6 +163,53 @@ Definition spec_collect (expected : unit_) (acc : option (list sobs * tolerance)
       else match dims with _ :: _ => None | [] => Some (os ++ os', tol_max k k') end
   end.
 
+(* ---- a Mean fed by a sequence of record_value calls: only accepted values count ----
+   A value is accepted iff it makes no call, or writes a metric in the mean's own unit without dimensions; a string,
+   an error, another unit or dimensions is a validation error and must leave the mean untouched ("a validation error
+   rather than a wrongly scaled number"). *)
+Definition xq_add (a b : xq) : xq :=
+  match a, b with
+  | XNaN, _ | _, XNaN => XNaN
+  | XInf s, XInf s' => if Bool.eqb s s' then XInf s else XNaN
+  | XInf s, _ | _, XInf s => XInf s
+  | XQ x, XQ y => XQ (Qred (x + y))
+  end.
+Definition xq_abs_q (a : xq) : Q := match a with XQ x => Qabs x | _ => 0 end.
+Record smean := mk_smean {
+  sm_sum : xq;          (* exact sum of the accepted numbers *)
+  sm_abs : Q;           (* sum of their magnitudes (for the rounding allowance) *)
+  sm_occ : N;           (* exact occurrences *)
+  sm_adds : N;          (* additions performed *)
+  sm_rel : N;           (* largest relative allowance of an accepted element *)
+  sm_slack : Q          (* sum of the elements' absolute allowances *)
+}.
+Definition smean_zero : smean := mk_smean (XQ 0) 0 0 0 0 0.
+Definition smean_add_obs (t : tolerance) (m : smean) (o : sobs) : smean :=
+  let '(x, n) := match o with
+                 | SUnsigned u => (XQ (inject_Z (Z.of_N u)), 1%N)
+                 | SNumber x => (x, 1%N)
+                 | SRepeated x n => (x, n)
+                 end in
+  mk_smean (xq_add (sm_sum m) x) (Qred (sm_abs m + xq_abs_q x)) (sm_occ m + n) (sm_adds m + 1)
+           (N.max (sm_rel m) (fst t)) (Qred (sm_slack m + snd t)).
+Definition spec_accepts (expected : unit_) (r : sres) : bool :=
+  match r with
+  | SRNone => true
+  | SRMetric _ u dims _ _ => unit_eqb u expected && match dims with [] => true | _ => false end
+  | _ => false
+  end.
+Definition spec_record (expected : unit_) (m : smean) (r : sres) : smean :=
+  match r with
+  | SRMetric os u dims _ t => if spec_accepts expected r then fold_left (smean_add_obs t) os m else m
+  | _ => m
+  end.
+Definition smean_tolerance (m : smean) : tolerance :=
+  let k := (sm_adds m + sm_rel m)%N in
+  (k, Qred (inject_Z (Z.of_N (k + 1)) * Qmake 1 (Pos.pow 2 53) * sm_abs m + sm_slack m
+            + inject_Z (Z.of_N (sm_adds m)) * min_subnormal)).
+Definition smean_write (u : unit_) (m : smean) : sres :=
+  if N.eqb (sm_occ m) 0 then SRNone else SRMetric [SRepeated (sm_sum m) (sm_occ m)] u [] None (smean_tolerance m).
+
 Definition millis_exact (secs nanos : N) : Q :=
   Qred (inject_Z (Z.of_N secs) * 1000 + Qmake (Z.of_N nanos) 1000000).
 
@@ -182,9 +229,14 @@ Fixpoint spec_write (v : value) : sres :=
              end
       end
   | MeanOf u t n => if N.eqb n 0 then SRNone else SRMetric [SRepeated (xq_of_f64 t) n] (tag_unit u) [] None tol_exact
+  | MeanSeq u vs => smean_write (tag_unit u) (fold_left (spec_record (tag_unit u)) (map spec_write vs) smean_zero)
   | Opt _ None => SRNone
   | Opt _ (Some v) => spec_write v
   end.
+
+(* which record_value calls of a MeanSeq must succeed *)
+Definition spec_mean_results (u : tag) (vs : list value) : list bool :=
+  map (fun v => spec_accepts (tag_unit u) (spec_write v)) vs.
 
 (* ---- does an observed call meet the specification?  (the executable property predicate) ---- *)
 Definition qmax (a b : Q) : Q := if Qle_bool a b then b else a.
